@@ -10,12 +10,26 @@ use std::process::{Command, Stdio};
 const SCRIPT: &str = r#"
 set -u
 BIN="$1"; shift
-if [ "${CBV_NS:-1}" = "1" ]; then mount -t tmpfs tmpfs /run || { echo "SETUP-FAILED mount"; exit 3; }; fi
-while read -r v; do
-  rm -rf /run/clockbound
-  if [ "$v" = "default" ]; then "$BIN" >/dev/null 2>&1 &
-  else "$BIN" "--max-drift-rate=$v" >/dev/null 2>&1 &
+PHC=0
+if [ "${CBV_NS:-1}" = "1" ]; then
+  mount -t tmpfs tmpfs /run || { echo "SETUP-FAILED mount"; exit 3; }
+  # a network interface with a PTP hardware clock, as far as the daemon's start-up looks: the PCI slot name
+  if mount -t tmpfs tmpfs /sys/class/net 2>/dev/null; then
+    mkdir -p /sys/class/net/cbvphc0/device && printf 'DRIVER=ena\nPCI_SLOT_NAME=0000:00:05.0\n' > /sys/class/net/cbvphc0/device/uevent && PHC=1
   fi
+fi
+while read -r c v; do
+  rm -rf /run/clockbound
+  if [ "$c" -ge 2 ] && [ "$PHC" != "1" ]; then echo "RESULT $c $v SKIPPED"; continue; fi
+  case "$c:$v" in
+    0:default) "$BIN" >/dev/null 2>&1 & ;;
+    4:default) "$BIN" -r PHC0 -i cbvphc0 >/dev/null 2>&1 & ;;
+    0:*) "$BIN" "--max-drift-rate=$v" >/dev/null 2>&1 & ;;
+    1:*) "$BIN" -m "$v" >/dev/null 2>&1 & ;;
+    2:*) "$BIN" --max-drift-rate "$v" -r PHC0 -i cbvphc0 >/dev/null 2>&1 & ;;
+    3:*) "$BIN" -i cbvphc0 -r PHC0 "--max-drift-rate=$v" >/dev/null 2>&1 & ;;
+    *) echo "RESULT $c $v BADCONTEXT"; continue ;;
+  esac
   pid=$!
   res=""
   i=0
@@ -31,11 +45,20 @@ while read -r v; do
     sleep 0.004
   done
   kill $pid 2>/dev/null; wait $pid 2>/dev/null
-  echo "RESULT $v ${res:-TIMEOUT}"
+  echo "RESULT $c $v ${res:-TIMEOUT}"
 done
 "#;
 
-fn alphabet(tier: Tier) -> Vec<String> {
+/// How the option reaches the daemon (the published value must not depend on it).
+const CONTEXTS: [&str; 5] = [
+    "--max-drift-rate=V (flag omitted for 'default')",
+    "-m V",
+    "--max-drift-rate V -r PHC0 -i <interface with a PTP hardware clock>",
+    "-i <interface> -r PHC0 --max-drift-rate=V",
+    "flag omitted, -r PHC0 -i <interface>",
+];
+
+fn alphabet(tier: Tier) -> Vec<(u8, String)> {
     let mut v: Vec<u64> = vec![];
     match tier {
         Tier::Quick => {
@@ -68,6 +91,10 @@ fn alphabet(tier: Tier) -> Vec<String> {
             v.extend(4_294_967 - 64..=4_294_967 + 64);
         }
     }
+    let mut boundary: Vec<u64> = match tier {
+        Tier::Quick => v.clone(),
+        Tier::Thorough => v.iter().cloned().filter(|x| *x <= 100 || *x == 1000 || (*x > 4_000_000 && *x % 7 != 3)).chain((1..=999u64).flat_map(|k| { let c = (k * (1u64 << 32) + 999) / 1000; [c - 1, c] })).collect(),
+    };
     // an arithmetic progression with a prime stride over the whole range of representable rates
     // (0 ..= 4 294 967): boundary values alone cannot expose a conversion that is off for scattered values
     // (e.g. one that goes through floating point)
@@ -83,14 +110,23 @@ fn alphabet(tier: Tier) -> Vec<String> {
     v.retain(|x| *x <= u32::MAX as u64);
     v.sort();
     v.dedup();
-    let mut out: Vec<String> = vec!["default".into()];
-    out.extend(v.iter().map(|x| x.to_string()));
+    let mut out: Vec<(u8, String)> = vec![(0, "default".into()), (4, "default".into())];
+    out.extend(v.iter().map(|x| (0u8, x.to_string())));
+    // the other spellings / companions of the option: the structured values (not the stride sweep)
+    boundary.retain(|x| *x <= u32::MAX as u64);
+    boundary.sort();
+    boundary.dedup();
+    for c in 1..=3u8 {
+        out.extend(boundary.iter().map(|x| (c, x.to_string())));
+    }
     // clap-level rejects
-    out.extend(["4294967296".to_string(), "-1".to_string(), "fast".to_string(), "1.5".to_string()]);
+    for c in 0..=3u8 {
+        out.extend([(c, "4294967296".to_string()), (c, "-1".to_string()), (c, "fast".to_string()), (c, "1.5".to_string())]);
+    }
     out
 }
 
-fn run_worker(bin: &str, values: &[String], ns: bool) -> Result<Vec<(String, String)>, String> {
+fn run_worker(bin: &str, values: &[(u8, String)], ns: bool) -> Result<Vec<(u8, String, String)>, String> {
     let mut cmd = if ns {
         let mut c = Command::new("unshare");
         c.args(["-m", "bash", "-c", SCRIPT, "cbv-c19", bin]);
@@ -103,8 +139,8 @@ fn run_worker(bin: &str, values: &[String], ns: bool) -> Result<Vec<(String, Str
     let mut child = cmd.stdin(Stdio::piped()).stdout(Stdio::piped()).stderr(Stdio::null()).spawn().map_err(|e| format!("cannot start worker: {e}"))?;
     {
         let mut sin = child.stdin.take().unwrap();
-        for v in values {
-            writeln!(sin, "{v}").map_err(|e| e.to_string())?;
+        for (c, v) in values {
+            writeln!(sin, "{c} {v}").map_err(|e| e.to_string())?;
         }
     }
     let out = child.wait_with_output().map_err(|e| e.to_string())?;
@@ -115,8 +151,9 @@ fn run_worker(bin: &str, values: &[String], ns: bool) -> Result<Vec<(String, Str
     let mut res = vec![];
     for l in text.lines() {
         if let Some(rest) = l.strip_prefix("RESULT ") {
+            let (c, rest) = rest.split_once(' ').unwrap_or((rest, ""));
             let (v, r) = rest.split_once(' ').unwrap_or((rest, ""));
-            res.push((v.to_string(), r.to_string()));
+            res.push((c.parse().unwrap_or(255), v.to_string(), r.to_string()));
         }
     }
     if res.len() != values.len() {
@@ -130,21 +167,21 @@ pub fn run(ctx: &Ctx) -> i32 {
     if !std::path::Path::new(&bin).exists() {
         machinery_failure(&format!("release binary {bin} not built"));
     }
-    let values: Vec<String> = match &ctx.replay {
+    let values: Vec<(u8, String)> = match &ctx.replay {
         Some(p) => {
             let doc: Value = serde_json::from_str(&std::fs::read_to_string(p).expect("replay file")).expect("json");
-            vec![doc["case"]["max_drift_rate_arg"].as_str().unwrap().to_string()]
+            vec![(doc["case"]["command_line_context"].as_u64().unwrap_or(0) as u8, doc["case"]["max_drift_rate_arg"].as_str().unwrap().to_string())]
         }
         None => alphabet(ctx.tier),
     };
     let ns = Command::new("unshare").args(["-m", "true"]).status().map(|s| s.success()).unwrap_or(false);
     let nworkers = if ns { crate::common::par::threads().min(values.len()) } else { 1 };
-    let chunks: Vec<Vec<String>> = (0..nworkers).map(|w| values.iter().skip(w).step_by(nworkers).cloned().collect()).collect();
-    let results: Vec<Result<Vec<(String, String)>, String>> = std::thread::scope(|s| {
+    let chunks: Vec<Vec<(u8, String)>> = (0..nworkers).map(|w| values.iter().skip(w).step_by(nworkers).cloned().collect()).collect();
+    let results: Vec<Result<Vec<(u8, String, String)>, String>> = std::thread::scope(|s| {
         let hs: Vec<_> = chunks.iter().map(|c| s.spawn(|| run_worker(&bin, c, ns))).collect();
         hs.into_iter().map(|h| h.join().unwrap_or_else(|_| Err("worker thread panicked".into()))).collect()
     });
-    let mut all: Vec<(String, String)> = vec![];
+    let mut all: Vec<(u8, String, String)> = vec![];
     for r in results {
         match r {
             Ok(v) => all.extend(v),
@@ -152,21 +189,29 @@ pub fn run(ctx: &Ctx) -> i32 {
         }
     }
     // simplest first: the smallest failing value is the one reported
-    all.sort_by_key(|(v, _)| v.parse::<i128>().unwrap_or(-1));
+    all.sort_by_key(|(c, v, _)| (v.parse::<i128>().unwrap_or(-1), *c));
+    let mut skipped = 0u64;
+    let mut per_context: BTreeMap<u8, u64> = BTreeMap::new();
     let mut violations: Vec<Violation> = vec![];
     let mut counts: BTreeMap<String, u64> = BTreeMap::new();
     let mut classes: BTreeMap<&str, u64> = BTreeMap::new();
     let mut samples = vec![];
     let mut nontrivial = 0u64;
-    for (v, r) in &all {
-        if r == "TIMEOUT" {
-            machinery_failure(&format!("--max-drift-rate={v}: the daemon neither published nor exited within the time limit"));
+    for (c, v, r) in &all {
+        if r == "SKIPPED" {
+            skipped += 1;
+            continue;
+        }
+        *per_context.entry(*c).or_insert(0) += 1;
+        let how = CONTEXTS.get(*c as usize).copied().unwrap_or("?");
+        if r == "TIMEOUT" || r == "BADCONTEXT" {
+            machinery_failure(&format!("--max-drift-rate={v} ({how}): the daemon neither published nor exited within the time limit ({r})"));
         }
         let expected: Option<u64> = if v == "default" { Some(1000) } else { v.parse::<u64>().ok().filter(|x| *x <= u32::MAX as u64).map(|x| x * 1000) };
         let mut viol = |sig: &str, text: String| {
             *counts.entry(sig.to_string()).or_insert(0) += 1;
             if !violations.iter().any(|x| x.signature == sig) {
-                violations.push(Violation { signature: sig.to_string(), text, replay: json!({"max_drift_rate_arg": v, "observed": r}) });
+                violations.push(Violation { signature: sig.to_string(), text: format!("{text} [command line: {how}]"), replay: json!({"max_drift_rate_arg": v, "command_line_context": c, "command_line": how, "observed": r}) });
             }
         };
         let parts: Vec<&str> = r.split(' ').collect();
@@ -204,7 +249,7 @@ pub fn run(ctx: &Ctx) -> i32 {
             }
             _ => machinery_failure(&format!("unparsable worker result '{r}' for value {v}")),
         }
-        if samples.len() < 6 && (v == "default" || v == "50" || v == "4294967" || v == "4294968" || v == "4294967295" || v == "-1") {
+        if samples.len() < 6 && *c == 0 && (v == "default" || v == "50" || v == "4294967" || v == "4294968" || v == "4294967295" || v == "-1") {
             samples.push(json!({"max_drift_rate_arg": v, "observed": r}));
         }
     }
@@ -215,9 +260,11 @@ pub fn run(ctx: &Ctx) -> i32 {
     let coverage = cov(vec![
         ("evaluations", json!(all.len())),
         ("distinct_nontrivial", json!(nontrivial)),
-        ("rule", json!("one run of the release binary per value: 'flag omitted', every 2003rd (thorough: every 97th) representable rate, small values, powers of two +/- 1, and for every k the two values on either side of the point where value x 1000 crosses k x 2^32 (any wrapping, truncating or saturating conversion differs from the exact one on at least one of them), 2^32-1, plus arguments clap must reject; all distinct; non-trivial = values whose ppb equivalent does not fit 32 bits")),
+        ("rule", json!("one run of the release binary per (value, way of passing it): with --max-drift-rate=V 'flag omitted', every 2003rd (thorough: every 97th) representable rate, small values, powers of two +/- 1, and for every k the two values on either side of the point where value x 1000 crosses k x 2^32 (any wrapping, truncating or saturating conversion differs from the exact one on at least one of them), 2^32-1, plus arguments clap must reject; all distinct; non-trivial = values whose ppb equivalent does not fit 32 bits")),
         ("samples", json!(samples)),
         ("outcome_classes", json!(classes)),
+        ("command_line_contexts", json!(CONTEXTS.iter().enumerate().map(|(i, c)| json!({"how": c, "runs": per_context.get(&(i as u8)).copied().unwrap_or(0)})).collect::<Vec<_>>())),
+        ("runs_skipped_because_sysfs_could_not_be_faked", json!(skipped)),
         ("private_mount_namespace", json!(ns)),
         ("binary", json!(bin)),
         ("violation_counts_by_class", json!(counts)),
